@@ -67,17 +67,22 @@ func Coeff(n, k int) int {
 }
 
 //Coeffs calculates all binomial coefficeints m choose k for 0 <= m <= n and k <= m/2.
+//Coeffs panics if a coefficient would overflow an int.
 func Coeffs(n int) [][]int {
 	coeffs := make([][]int, n+1)
 	for i := 0; i <= n; i++ {
 		tmp := make([]int, i/2+1)
 		tmp[0] = 1
 		for j := 1; j < i/2+1; j++ {
-			if 2*j == i {
-				tmp[j] = 2 * coeffs[i-1][j-1]
-				continue
+			a, b := coeffs[i-1][j-1], coeffs[i-1][j-1]
+			if 2*j != i {
+				b = coeffs[i-1][j]
 			}
-			tmp[j] = coeffs[i-1][j-1] + coeffs[i-1][j]
+			sum, overflow := addHasOverflowed(a, b)
+			if overflow {
+				panic("coeff does not fit in an int")
+			}
+			tmp[j] = sum
 		}
 		coeffs[i] = tmp
 	}
